@@ -26,32 +26,34 @@ import (
 	"verif/harness/c16"
 	"verif/harness/c17"
 	"verif/harness/c18"
+	"verif/harness/c18race"
 	"verif/harness/c19"
 	"verif/harness/c20"
 	"verif/harness/common"
 )
 
 var areas = map[string]common.Area{
-	"c01": c01.Area{},
-	"c02": c02.Area{},
-	"c03": c03.Area{},
-	"c04": c04.Area{},
-	"c05": c05.Area{},
-	"c06": c06.Area{},
-	"c07": c07.Area{},
-	"c08": c08.Area{},
-	"c09": c09.Area{},
-	"c10": c10.Area{},
-	"c11": c11.Area{},
-	"c12": c12.Area{},
-	"c13": c13.Area{},
-	"c14": c14.Area{},
-	"c15": c15.Area{},
-	"c16": c16.Area{},
-	"c17": c17.Area{},
-	"c18": c18.Area{},
-	"c19": c19.Area{},
-	"c20": c20.Area{},
+	"c01":     c01.Area{},
+	"c02":     c02.Area{},
+	"c03":     c03.Area{},
+	"c04":     c04.Area{},
+	"c05":     c05.Area{},
+	"c06":     c06.Area{},
+	"c07":     c07.Area{},
+	"c08":     c08.Area{},
+	"c09":     c09.Area{},
+	"c10":     c10.Area{},
+	"c11":     c11.Area{},
+	"c12":     c12.Area{},
+	"c13":     c13.Area{},
+	"c14":     c14.Area{},
+	"c15":     c15.Area{},
+	"c16":     c16.Area{},
+	"c17":     c17.Area{},
+	"c18":     c18.Area{},
+	"c18race": c18race.Area{},
+	"c19":     c19.Area{},
+	"c20":     c20.Area{},
 }
 
 func main() {
